@@ -210,11 +210,15 @@ pub fn iters_secs(n: usize) -> f64 {
 }
 
 pub fn err_name(e: &PlanningError) -> &'static str {
+    // by Debug name, so that a variant added to the library later does not stop the harness from
+    // compiling (an unknown variant is reported under its own name by the oracles)
     match e {
         PlanningError::Timeout => "Timeout",
         PlanningError::NoSolutionFound => "NoSolutionFound",
         PlanningError::PlannerUninitialised => "PlannerUninitialised",
         PlanningError::InvalidStartState => "InvalidStartState",
         PlanningError::UnsampledStateSpace => "UnsampledStateSpace",
+        #[allow(unreachable_patterns)]
+        other => Box::leak(format!("{other:?}").into_boxed_str()),
     }
 }
